@@ -333,7 +333,8 @@ def replay(grog, history, opts, scratch_root, literal_clean=True):
     """Steps one TLC-generated history through the real binary. Returns (mismatches, stats)."""
     base = tempfile.mkdtemp(prefix="hist.", dir=scratch_root)
     mism = []
-    stats = {"builds": 0, "actions": 0, "executions": 0, "hits": 0}
+    pipe = []
+    stats = {"builds": 0, "actions": 0, "executions": 0, "hits": 0, "pipe": pipe}
     try:
         h = history["header"]
         if isinstance(h.get("alias0"), list):
@@ -462,6 +463,19 @@ def replay(grog, history, opts, scratch_root, literal_clean=True):
                 for e in events:
                     if e.get("k") == "t.lookup":
                         last_keys[e["t"].split(":")[-1]] = e.get("key")
+                # the build's event trace for Pipeline.tla (dependencies with aliases resolved)
+                if not mism:
+                    deps = {t: sorted({W.resolve(st, d) for d in h["decldeps"][t]}) for t in W.targets}
+                    pev = []
+                    for e in sorted(events, key=lambda e: e.get("seq", 0)):
+                        k = e.get("k", "")
+                        if not k.startswith("t."):
+                            continue
+                        t = e.get("t", "").split(":")[-1]
+                        b = e.get("found", e.get("pass", e.get("tainted", e.get("ok", False))))
+                        pev.append({"k": k, "t": t, "b": bool(b), "d": e.get("d", "").split(":")[-1]})
+                    pipe.append({"hdr": {"deps": deps, "workers": opts.get("workers", 4), "cacheOn": act["cacheOn"], "mode": act["mode"],
+                                         "nocache": sorted(t for t in W.targets if st["src"][t]["nc"])}, "ev": pev})
                 # outputs
                 real = {}
                 for t in W.targets:
@@ -559,6 +573,42 @@ def attribute1(m):
     return "C02"
 
 
+PIPE_PROP = {"started-before-dependency-finished": {"C03"}, "more-tasks-than-num_workers": {"C03"}, "command-started-twice": {"C03"}, "target-hashed-twice": {"C03"},
+             "hit-without-result": {"C01", "C02"}, "hit-although-tainted": {"C13"}, "hit-although-check-fails": {"C14"}, "hit-although-cache-disabled": {"C13"},
+             "hit-although-no-cache": {"C13"}, "result-written-for-failed-or-unfinished-target": {"C05", "C14"}, "outputs-stored-for-failed-or-unfinished-target": {"C05", "C14"}}
+_pipe_seq = [0]
+
+
+def validate_pipeline(chk, tmp, traces, prop, label, others):
+    """Every build's hook events must be a behaviour of spec/Pipeline.tla (the per-target pipeline automaton)."""
+    if not traces:
+        return
+    _pipe_seq[0] += 1
+    cfg = "SPECIFICATION Spec\nCONSTANTS\n  Targets <- AllTargets\n  TraceFile <- TraceFileC\nINVARIANTS Diag\nCONSTRAINT HighWater\nPOSTCONDITION Accepted\nCHECK_DEADLOCK FALSE\n"
+    res = core.tlc(os.path.join(tmp, f"pipe_{_pipe_seq[0]}"), "PipelineMC.tla", "p.cfg", workers=1, timeout=1500,
+                   files={"p.cfg": cfg, "pipeline_traces.json": json.dumps(traces)}, java_opts="-Dtlc2.tool.queue.IStateQueue=StateDeque", heap="8g")
+    if res.rc != 0 or "Model checking completed" not in res.out:
+        raise core.Infra("pipeline trace validation failed:\n" + res.out[-2500:])
+    chk.add_tlc(f"Pipeline trace validation: {label}", res, builds=len(traces))
+    chk.cov["pipeline_builds_validated"] = chk.cov.get("pipeline_builds_validated", 0) + len(traces)
+    for line in res.out.splitlines():
+        m = re.match(r'<<"WHY", (\d+), (\d+), "([\w.]+)", \{(.*)\}>>', line)
+        if not m:
+            continue
+        whys = re.findall(r'"([^"]+)"', m.group(4))
+        tr = traces[int(m.group(1)) - 1]
+        props = set()
+        for w in whys:
+            props |= PIPE_PROP.get(w, {"C03"} if "out-of-order" in w else {"C02"})
+        ev = tr["ev"][int(m.group(2)) - 1]
+        if prop in props:
+            chk.violation("pipeline:" + ",".join(whys), f"{label}: event {m.group(2)} {ev} of a build (workers={tr['hdr']['workers']}, mode={tr['hdr']['mode']}, cacheOn={tr['hdr']['cacheOn']}) "
+                          f"is not a step of Pipeline.tla: {whys}; events so far {[(e['k'], e['t']) for e in tr['ev'][: int(m.group(2))]][-12:]}", {"trace": tr, "line": int(m.group(2))})
+        else:
+            for pp in props:
+                others[pp + ":pipeline:" + ",".join(whys)] = others.get(pp + ":pipeline:" + ",".join(whys), 0) + 1
+
+
 def run_histories(chk, tmp, grog, histories, prop, literal_clean, label, opts_of=None):
     others = {}
     t0 = time.time()
@@ -571,9 +621,11 @@ def run_histories(chk, tmp, grog, histories, prop, literal_clean, label, opts_of
     with ThreadPoolExecutor(core.NCPU) as ex:
         results = list(ex.map(one, enumerate(histories)))
     tot = {"builds": 0, "actions": 0, "executions": 0, "hits": 0}
+    pipe_traces = []
     for (mism, stats), h in zip(results, histories):
         for k in tot:
             tot[k] += stats[k]
+        pipe_traces += stats.get("pipe", [])
         chk.cov["traces_validated_against_impl"] += 1
         acts = tuple((s["act"]["kind"], s["act"].get("t") or s["act"].get("s")) for s in h["steps"])
         chk.count(acts, nontrivial=stats["builds"] >= 2)
@@ -595,6 +647,7 @@ def run_histories(chk, tmp, grog, histories, prop, literal_clean, label, opts_of
             else:
                 for p in ps:
                     others[p + ":" + m["kind"]] = others.get(p + ":" + m["kind"], 0) + 1
+    validate_pipeline(chk, tmp, pipe_traces, prop, label, others)
     chk.cov.setdefault("replay", {})[label] = dict(tot, histories=len(histories), wall_s=round(time.time() - t0, 1))
     chk.cov.setdefault("anomalies_attributed_to_other_properties", {}).update(others)
     if histories:
